@@ -172,6 +172,45 @@ def evaluate(initial, events, source_only, sim_seed, noop_seeds):
 WALL_LIMIT = {"quick": 240, "thorough": 1500}
 
 
+def run_env_dropped_case(ctx, index: int):
+    """A step stops reading an environment variable (its script and a declared input change, so it is
+    run again and no longer announces the variable); afterwards the variable changes: nothing tracks it
+    any more according to plans and scripts, so the rebuild must not execute anything."""
+    from simdirector import A, Project, plan_file
+
+    r = ctx.rng("env-dropped", index)
+    dynamic = index % 2 == 0
+    name = r.choice(["C04_MODE", "C04_LEVEL"])
+    v1 = [A.read_declared()] + ([A.amend(env=[name])] if dynamic else []) + [A.getenv(name), A.write_declared()]
+    v2 = [A.read_declared(), A.write_declared()]
+    step1 = A.step("work", inp=["cfg.txt"], out=["out/w.txt"], env=[] if dynamic else [name])
+    step2 = A.step("work", inp=["cfg.txt"], out=["out/w.txt"])
+    other = A.step("other", inp=["cfg.txt"], out=["out/o.txt"], env=["C04_OTHER"])
+    plan1, plan2 = [A.static("cfg.txt"), step1, other], [A.static("cfg.txt"), step2, other]
+    project = Project(scripts={"./plan.py": plan1, "work": v1, "other": [A.read_declared(), A.write_declared()]},
+                      files={"plan.py": plan_file(plan1), "cfg.txt": "v1\n"}, env={name: "fast", "C04_OTHER": "x"})
+    found = []
+    info = {"dynamic": dynamic, "variable": name}
+    with SimDirector(copy.deepcopy(project), seed=r.randrange(1 << 30)) as sim:
+        b1 = sim.build(njob=r.randint(1, 2))
+        sim.apply([("script", "work", v2, ""), ("write", "cfg.txt", "v2\n")]
+                  + ([] if dynamic else [("script", "./plan.py", plan2, ""), ("write", "plan.py", plan_file(plan2))]))
+        b2 = sim.build(njob=r.randint(1, 2))
+        info["build2_commands"] = b2.commands
+        if b1.status != "done" or b2.status != "done" or not (b1.ok and b2.ok):
+            return [("director-" + (b2.status if b2.status != "done" else "failed"),
+                     f"a build of the env-dropped family ended with {b1.returncode!r} / {b2.returncode!r}", info)], info
+        sim.apply([("setenv", name, "slow")])
+        b3 = sim.build(njob=r.randint(1, 2))
+        info["build3_commands"] = b3.commands
+        if b3.commands:
+            found.append(("noop-rebuild-runs-commands:env-no-longer-read",
+                          f"after the step stopped reading {name} (and was run again without it) a change of {name} made "
+                          f"the rebuild execute {b3.commands[:4]}",
+                          {**info, "events": [e[:2] for e in b3.events if e[0] in ("START", "SKIP", "UPDATED", "NOSKIP")][:10]}))
+    return found, info
+
+
 async def search(ctx):
     import time
 
@@ -237,6 +276,16 @@ async def search(ctx):
                        "evaluated by props.c04.evaluate"}))
         if any(sig.startswith("director-") for sig, _, _ in found):
             break
+    for i in range(ctx.budget(6, 60)):
+        found, info = await asyncio.to_thread(run_env_dropped_case, ctx, i)
+        st.case(("env-dropped", i), nontrivial=True)
+        st.programs += 1
+        st.count("env-dropped-histories:" + ("dynamic" if info["dynamic"] else "declared"))
+        for sig, what, extra in found:
+            st.count("finding:" + sig)
+            ctx.finding(Finding(PID, sig, what, {
+                "case": {"verif_seed": ctx.seed, "salt": "env-dropped", "index": i}, **extra,
+                "how": "props/c04.py run_env_dropped_case(ctx, index)"}))
     if not st.rule:
         st.rule = ("a case is one history of the C01 generator (half of the phases edit source files only); every "
                    "successful build is followed by an unchanged rebuild (restart with another job count and schedule, "
